@@ -465,8 +465,9 @@ class Ev:
         self.path = []                     # conditions already decided on the current forked path (for pruning re-tests)
 
     # ---- function summaries
-    def apply_fn(self, name, args, depth):
-        """Evaluate the body of local function `name` with parameters bound to the given values."""
+    def apply_fn(self, name, args, depth, collapse=True):
+        """Evaluate the body of local function `name` with parameters bound to the given values.
+        collapse=False keeps every alternative of the outermost body (used by rules that judge each path)."""
         r = self.facts.fn(name)
         if r is None:
             raise Unsupported("no body for " + name)
@@ -480,7 +481,8 @@ class Ev:
         saved = (self.guards, self.loops, self.path)
         self.guards, self.loops, self.path = [], [], list(self.path) if depth else []
         try:
-            return self.collapse(strip_early(self.eval(r["body"], env, depth + 1)))
+            v = strip_early(self.eval(r["body"], env, depth + 1))
+            return self.collapse(v) if collapse else v
         except Return as ret:
             return ret.value
         finally:
